@@ -186,6 +186,15 @@ def client_binding(ctx: Ctx, roles) -> None:
             if k.kind in ("value", "unknown") and not (isinstance(c.func, ast.Attribute) and norm(c.func.value).startswith("_LOGGER")):
                 user_calls.append(c)
     ctx.ob("C07.R1", hook, "the client's stop hook invokes the user's callback at one site", len(user_calls) == 1, f"user-code calls in the hook: {[norm(c)[:50] for c in user_calls]}")
+    # "its argument is true iff a graceful disconnect had been initiated": the reason the connection computed (C07.R3)
+    # travels through the client's hook unchanged - the user's callback receives the hook's own parameter, which is
+    # not one of the values bound at connect time and is never rebound inside the hook
+    free = hp[len(bound):]
+    rebound = sorted({t.id for n in own_nodes(hook.node) for t in (n.targets if isinstance(n, ast.Assign) else [n.target] if isinstance(n, (ast.AugAssign, ast.AnnAssign, ast.NamedExpr)) else []) if isinstance(t, ast.Name) and t.id in hp})
+    for c in user_calls:
+        args = [norm(a) for a in c.args] + [f"{k.arg}={norm(k.value)}" for k in c.keywords]
+        ok = len(c.args) == 1 and not c.keywords and isinstance(c.args[0], ast.Name) and c.args[0].id in free and c.args[0].id not in rebound
+        ctx.ob("C07.R3", hook, "the user's callback receives the connection's reason unchanged", ok, f"called with {args}; parameters supplied by the connection: {free}; rebound in the hook: {rebound}", node=c)
     g = cfg_of(ctx, start)
     ctor_nodes = [n for n in g.reachable() if n.ast is not None and n.kind == "stmt" and any(x is ctors[0] for x in walk_own(n.ast))]
     for c in user_calls:
